@@ -4,7 +4,7 @@ import itertools
 from .. import core, bdd
 from ..core import Failure
 
-VARS5 = ('a', 'b', 'c', 'd', 'e')
+VARS5 = ('a', 'b', 'c', 'd', 'e', 'f')
 OPS = {'and': lambda x, y: x & y, 'or': lambda x, y: x | y, 'xor': lambda x, y: x ^ y}
 
 
@@ -64,6 +64,13 @@ def check_ops(inp):
                 return Failure('ops', inp, 'correct reduced ordered diagram', p)
             if not (r.ordering == of.ordering):
                 return Failure('ops', inp, 'result keeps the ordering', 'ordering changed by %s' % op)
+        # the same object on both sides, and an operand against its own negation
+        for op in ('and', 'or', 'xor'):
+            p = inspect(apply_op(op, of, of), OPS[op](inp['f'], inp['f']), variables, order, 'f %s f' % op)
+            if p is None:
+                p = inspect(apply_op(op, of, ~of), OPS[op](inp['f'], full & ~inp['f']), variables, order, 'f %s ~f' % op)
+            if p:
+                return Failure('ops', inp, 'correct reduced ordered diagram', p)
         r = ~of
         p = inspect(r, full & ~inp['f'], variables, order, '~f')
         if p:
@@ -114,6 +121,22 @@ def check_errors(inp):
         if raised != want:
             return Failure('errors', inp, want or 'no exception', raised or 'no exception',
                            'f %s g with orderings %s / %s' % (op, o1, o2))
+    # an ordering that is a proper prefix / extension of the other is a different ordering
+    if nv >= 2:
+        try:
+            short = build(bdd.tt_var(0, nv - 1) if nv > 1 else 1, variables[:nv - 1], [v for v in o1 if v != variables[nv - 1]])
+            try:
+                apply_op('and', of, short)
+                raised = None
+            except Exception as e:
+                raised = type(e).__name__
+            if raised != 'RuntimeError':
+                return Failure('errors', inp, 'RuntimeError', raised or 'no exception',
+                               'f & g where g\'s ordering lacks the variable %r of f\'s ordering' % variables[nv - 1])
+        except core.HarnessError:
+            raise
+        except Exception as e:
+            return Failure('errors', inp, 'operands can be built', 'raised %s: %s' % (type(e).__name__, e))
     # a variable outside the ordering
     outside = inp.get('outside', 'zz')
     for what, fn in (('expression', lambda: OBDD('%s & %s' % (variables[0], outside), o1)),
@@ -251,7 +274,7 @@ def random_shard(st, shard, nshards, payload):
     from hypothesis import strategies as hs
     @hs.composite
     def case_s(draw):
-        nv = draw(hs.sampled_from([4, 4, 5]))
+        nv = draw(hs.sampled_from([4, 4, 5, 6]))
         vs = list(VARS5[:nv])
         top = (1 << (1 << nv)) - 1
         return {'nv': nv, 'order': list(draw(hs.permutations(vs))), 'order2': list(draw(hs.permutations(vs))),
